@@ -176,6 +176,12 @@ PROPS['C07'] = {
                    'nothing.  The REAL ack / receipt / pong / iq entity classes are executed symbolically (constructors, inheritance, '
                    'setAttribute).  NOT decided here: the composition over the parallel protocol layers of the full stack (that no second '
                    'layer also answers) and the media layer receipt for unsupported media types: level other.',
+    'native_checks': [{'name': 'c07_cross_check', 'role': 'cross-check', 'cmd': ['-m', 'pyvc.native', 'searchall', 'contracts/C07_acks.py'],
+                       'bound': 'the real handlers recvNotification / recvCall / recvIq under the same contracts, with the REAL entity parsers '
+                                '(fromProtocolTreeNode) called through instead of abstracted: generated stanzas (8 notification types incl. '
+                                'unknown and empty, 5 sender shapes, every attribute optionally absent, picture set/delete/neither children, call '
+                                'offer/terminate/other children with and without call-id, pings with and without id), 10% failing transports; '
+                                'quick 150 / thorough 3000 stanzas per handler'}],
     'assumptions': ['ProtocolTreeNode.getChild is an assumed pure function of (node, tag); entity parsers (fromProtocolTreeNode) of '
                     'notification/call/encrypt entities and the protobuf converter are opaque events (total on their documented shape: C09/C10)',
                     'toLower/toUpper opaque'],
